@@ -131,12 +131,28 @@ class Scn:
         return f"{self.name} {' '.join(map(str, self.args))}"
 
 
+def stale(path, n=300000):
+    """something older and longer is already at the path (the driver opens with Options::overwrite)"""
+    with open(path, "wb") as f:
+        f.write(b"\x5a" * n)
+
+
 def prep_encode(s):
     seed = s.args[0]
     p = os.path.join(s.dir, "ref.flac")
+    stale(p)
     rc, out, err, lines = run_traced(["encode", p, str(seed)], p)
     if rc != 0 or result_line(out) != "ok":
         return f"fault-free encode failed: rc={rc} {out[-200:]} {err[-200:]}"
+    # the same encode through new(Cursor): the path-based constructor over an existing longer file must
+    # give the same bytes
+    pm = os.path.join(s.dir, "mem.flac")
+    rc2, out2, err2 = sh([drv(), "encode", pm, str(seed), "mem"])
+    if result_line(out2) != "ok":
+        return f"in-memory twin failed: {out2[-200:]} {err2[-200:]}"
+    if md5_file(pm) != md5_file(p):
+        s.ref["plain_violation"] = ("path-result-differs", f"{s.describe()}: create(path) over an existing longer file left {os.path.getsize(p)} bytes, the same encode through new(Cursor) gives {os.path.getsize(pm)} bytes (identical prefix: {open(p,'rb').read()[:os.path.getsize(pm)] == open(pm,'rb').read()})")
+        shutil.copy(pm, p)
     s.ref["bytes_md5"] = md5_file(p)
     s.ref["bytes"] = open(p, "rb").read()
     s.ref["frames"] = framesinfo(p)   # where the frames are, from the finished fault-free twin
@@ -165,6 +181,8 @@ def prep_encode(s):
 def eval_encode(s, tag, inject):
     p = os.path.join(s.dir, f"x{tag}.flac")
     kill = "SIGKILL" in inject
+    if not kill:
+        stale(p)
     rc, out, err, _ = run_traced(["encode", p, str(s.args[0])], p, inject)
     res = result_line(out)
     try:
@@ -362,6 +380,8 @@ def scenarios(prop, tier, seed):
     out = []
     if prop in ("C13", "C14"):
         out += [("encode", [s]) for s in seeds]
+    if prop == "C08":
+        out += [("encode", [s]) for s in seeds[: (60 if thorough else 6)]]
     if prop == "C13":
         kinds = ["grow_small", "grow_big", "shrink", "add_picture", "drop_padding"]
         pads = [300, "none", 4096] if thorough else [300]
@@ -417,6 +437,12 @@ def run_one(prop, name, args, inject_list, workdir):
         if s.ref.get("plain_violation"):
             viols.append((s.ref["plain_violation"][0], s.ref["plain_violation"][1], None))
         faults = [] if inject_list is None else faults
+    if name == "encode" and prop in ("C08", "C13"):
+        evals += 1
+        if s.ref.get("plain_violation"):
+            viols.append((s.ref["plain_violation"][0], s.ref["plain_violation"][1], None))
+        if prop == "C08":
+            faults = [] if inject_list is None else faults
     for i, (kind, inject) in enumerate(faults):
         r = EVAL[name](s, i, inject)
         evals += 1
